@@ -478,3 +478,87 @@ Definition would_panic (T : ftables) (s : state) (a : nat) : bool :=
     | _ => false end
   | None => false
   end.
+
+(* ==================================================================================================================================
+   MAPPING  model frame -> logged critical sections   (for a log-replay driver of this layer; same conventions as the L1 driver
+   /verif/driver/replay.ml [expected]: an event is logged at the END of a critical section; {pre; at; post}: [at] = the section at
+   whose end the model step takes effect, [pre] = sections logged before it inside the same model step, [post] = sections that follow
+   inside the same model step; "?" = may be absent; DA = a debug_assert!(..core.lock()..is_running()) re-lock, present only in builds
+   with debug assertions (the harness builds with them); "silent" = no logged section, the driver takes the model step on its own.)
+   Classes: Core (queue core), Sched (schedule), Fres f (SchedulerFutureResult of future f), Dw d (DrainWaker d), Dbl k (DoubleWaker k),
+   Ev e (external event / oneshot cell e), SyncRes c (the private result mutex of caller c's sync_drain; not a model lock).
+   Nested sections: the inner section ENDS first, so it is logged first.
+
+   caller, scheduling
+     FTop                 silent (SchedulerFuture::new, FutureId::new: no mutex)
+     FD1 j                at Core
+     FD2                  at Sched ; post: the sections of schedule_thread (threads / busy locks, spawn) - abstracted here, see L1
+     FUse, FAwRet, FDropRet   silent
+     FPark f              silent; enabled only after an Unpark of this thread has been logged (token)
+     FFS1 f               at Fres f
+     FFire e              at Ev e  (oneshot send: value stored, waker taken; the wake frames follow as their own steps)
+   SchedulerFuture::poll / drain_queue (caller a)
+     FSFpoll f            result present:            at Fres f
+                          result missing:            pre Core (nested inside, logged first) ; at Fres f
+                          ... and DrainQueue chosen: post DA Core (entry of drain_queue)
+     FDQtake f            at Fres f
+     FDQdeq f             at Core ; post DA Core when a job was dequeued (none when the queue was empty / dequeue refused)
+     FDQrequeue f d j     at Core
+     FDQtake2 f d         at Fres f
+     FDQwfw f d           at Core
+     FDQstore f d         at Fres f
+     FDQwfp f d           at Core
+     FDQempty1 f          at Fres f
+     FDQempty2 f          at Core
+     FDQidle f            at Core
+     FWakeWith d w        at Dw d
+   polling a job  FJob j w k   (k = KDrain: drain on a pool thread, KRoj: run_one_job_now, KDq f d: drain_queue)
+     JPlain op            silent
+     JSync op c None      at SyncRes c            (sync_drain's job stores the result; sync_background's job: L1's JSyncBg sections)
+     JSync op c (Some f)  pre Fres f ; at SyncRes c
+     JFut op NotCreated   silent (the closure is invoked)
+     JFut op Waiting []   silent (Poll::Ready)
+     JFut .. (PTouch::_)  silent
+     JFut .. (PAwait e::_) at Ev e
+     JFut .. (PSignal f::_) at Fres f  (the waker call follows as FWake frames on the same thread)
+     every FJob step that RETURNS READY with k = KRoj: post DA Core (run_one_job_now asserts is_running after the poll loop)
+   sync (caller a)
+     FS1 op tk            at Core ; post DA Core for Immediate and Drain (entry of sync_immediate / sync_drain)
+     FClosure op None     silent ;  FClosure op (Some f)  at Fres f
+     FSIidle              at Core
+     FSDpush op tk        at Core
+     FSDloop              at SyncRes a  (while result.0.lock().is_none())
+     FSDidle              at Core ; the final result.0.lock().take() (SyncRes a) is logged AFTER the reschedule_queue sections that follow
+                          (FRQ1, FRQ2): treat it as a stutter before the caller's next FTop step
+     FSBreg op tk         at Core (wake_blocked.push)
+     FSBpush op tk        at Core
+     FSBwait              ABSTRACT: stands for the whole wait loop of sync_background (ready mutex, condvar wait / notify, the
+                          rescheduled flag, claim_pending_queue = Sched+Core, the steal path = run_one_job_now sections, Core := Idle,
+                          reschedule_queue).  A driver must either skip these sections for this caller until its job has been run
+                          (sres = true) or restrict replay to programs without a Background sync (L1 replays them).
+     FSBdone              at Core (wake_blocked.retain)
+     FROdeq               at Core ; post DA Core when a job was dequeued
+     FROpend j            at Core
+     FROcheck j           at Core
+     FROpark j            silent; enabled only after an Unpark of this thread has been logged
+     FRQ1                 at Core (the notifications of blocked waiters happen INSIDE this section: see FRQ1 in the L1 driver)
+     FRQ2                 at Sched ; post: schedule_thread sections (abstracted)
+   pool runner
+     FPIdle               one schedule entry examined: at Core (nested in the schedule lock held by next_to_run) ;
+                          post Sched? (the schedule section ends when an entry is taken or the schedule is exhausted; a skipped stale
+                          entry keeps it open) ; when the entry is taken: post DA Core (entry of drain), after the busy-lock sections
+                          of the pool loop (abstracted).  With insched = 0 the step is disabled: the log shows Sched only.
+     FDRdeq               at Core ; post DA Core when a job was dequeued
+     FDRrequeue j         at Core
+     FDRpend              at Core
+     FDRfin               at Core (the debug_assert uses the guard already held: no extra section)
+   waker calls (executed on the calling thread, as the frames on top of its stack)
+     FWake WQueue         at Core ; (reschedule_queue follows as FRQ1 / FRQ2)
+     FWake (WThread c)    at Core ; then FUnpark c
+     FWake (WTask c)      silent (the executor's task waker) ; then FUnpark c
+     FUnpark c            the Unpark event of thread c (no mutex)
+     FWake (WDrain d)     at Dw d
+     FWake (WDouble k)    at Dbl k
+   Not represented at all: the pool's thread / busy mutexes, max_threads, remove_finished_threads, thread spawning (all L1);
+   Arc / Weak counts; the ActiveQueue guards (no section unless panicking).
+   ================================================================================================================================== *)
